@@ -2386,7 +2386,11 @@ def corpus_cases():
     if os.path.isdir(d):
         for fn in sorted(os.listdir(d)):
             if fn.endswith(".json"):
-                out.append(json.load(open(os.path.join(d, fn)))["case"])
+                c = json.load(open(os.path.join(d, fn))).get("case")
+                # entries of other streams (sequences, histories, model pipeline) are replayed by ./check's
+                # run_corpus through replay(); only single-problem entries are problems of this stream
+                if isinstance(c, dict) and "cfg" in c and "nets" in c:
+                    out.append(c)
     return out
 
 
